@@ -36,7 +36,8 @@ func interceptDebugInfo(imp interface{}, pFunc iface.PFunc, mocker Mocker) (inte
 		return imp, pFunc
 	}
 
-	if imp != nil {
+	// 只拦截非空的函数类型回调: 其他值(非函数、nil 函数)原样交给后续的校验逻辑, 使 debug 开关不改变其报错行为
+	if v := reflect.ValueOf(imp); imp != nil && v.Kind() == reflect.Func && !v.IsNil() {
 		originImp := imp
 		impType := reflect.TypeOf(imp)
 		imp = reflect.MakeFunc(impType, func(params []reflect.Value) []reflect.Value {
